@@ -407,7 +407,11 @@ func Random(id int, rng *rand.Rand, o Opts) *Prog {
 			case r < 5:
 				t = g.pick(g.leafs)
 			case r == 5:
-				t = Slice(g.pick(g.leafs))
+				e := g.pick(g.leafs)
+				if e.K == "basic" && e.Name == "uint8" && !o.ByteSlices {
+					e = Basic("int16")
+				}
+				t = Slice(e)
 			case r == 6:
 				k := Basic("string")
 				if o.MapKeys {
@@ -430,7 +434,11 @@ func Random(id int, rng *rand.Rand, o Opts) *Prog {
 			case r == 11 && o.ByteSlices:
 				t = Slice(Basic("byte"))
 			default:
-				t = Slice(Slice(g.pick(basics)))
+				b := g.pick(basics)
+				if b.Name == "uint8" && !o.ByteSlices {
+					b = Basic("int") // []uint8 is []byte: base64 on the wire (recorded finding of C03 / C04 / C06)
+				}
+				t = Slice(Slice(b))
 			}
 			fld := Field{Name: fn, Type: t}
 			if o.Tags {
